@@ -81,6 +81,12 @@ def gen_cases(tier, seed):
         for _ in range(n):
             e = rng.choice(groups) if rng.random() < 0.25 else rng.choice(entries)
             out.append(codec.random_avp(rng, entries, max_depth=depth, code_vendor_entry=e))
+        if rng.random() < 0.2:
+            # a vendor without a dictionary of its own using a code the base dictionary defines (grouped / text there): opaque
+            code = rng.choice([456, 1, 443, 264])
+            pv, vs = codec.v_bytes(bytes(rng.getrandbits(8) for _ in range(rng.choice([0, 5, 12]))))
+            out.append(({"code": code, "vendor": 99999, "kind": "bytes", "value": pv, "M": False, "P": False, "raw": True},
+                        {"code": codec.limbs(code, 2), "vendor": codec.limbs(99999, 2), "M": False, "P": False, "val": vs}))
         if out and rng.random() < 0.5:            # repeated AVPs
             out.append(out[rng.randrange(len(out))])
         return out
@@ -153,6 +159,8 @@ def run(tier, seed):
         outs += tlc.evaluate("WireEval", specs[off:off + B], "c02_eval_%d" % off, timeout=3000)
     find_cases = []
     find_ctx = []
+    edit_cases = []
+    edit_ctx = []
     for ci, (c, o) in enumerate(zip(cases, outs)):
         exp = bytes(o["bytes"])
         h = c["hdr"]
@@ -205,6 +213,19 @@ def run(tier, seed):
                 ck.violation("reencode_differs", "re-encoding the generically decoded message does not reproduce the input", rp)
         except Exception as e:
             ck.violation("reencode_raised:%s" % type(e).__name__, "re-encoding the generically decoded message raised %r" % (e,), rp)
+        # a generically decoded message edited in place (first AVP moved to the end, identifiers changed) encodes to the
+        # reference octets of the edited message
+        if len(c["avps"]) >= 2 and ci % 2 == 0:
+            try:
+                g2 = Message.from_bytes(exp, plain_msg=True)
+                g2.as_bytes()
+                first = g2.avps.pop(0)
+                g2.avps.append(first)
+                g2.header.hop_by_hop_identifier = (want["hop_by_hop_identifier"] + 1) & 0xFFFFFFFF
+                edit_cases.append({"op": "msg", "hdr": dict(h, hbh=codec.limbs(g2.header.hop_by_hop_identifier, 2)), "avps": [a[1] for a in c["avps"][1:]] + [c["avps"][0][1]]})
+                edit_ctx.append((g2.as_bytes(), rp))
+            except Exception as e:
+                ck.violation("edit_raised:%s" % type(e).__name__, "editing / re-encoding a generically decoded message raised %r" % (e,), rp)
         # typed decoding: class and header
         try:
             t = Message.from_bytes(exp)
@@ -243,6 +264,14 @@ def run(tier, seed):
                 gotp = [list(rev.get(id(a), (-1,))) for a in res]
                 if gotp != [list(p) for p in exp_paths]:
                     ck.violation("find_avps_differs" + (":cached" if rnd else ""), "find_avps%r returned tree positions %r, reference %r" % (tuple(args), gotp, exp_paths), dict(rp, path=args))
+    eouts = []
+    for off in range(0, len(edit_cases), B):
+        eouts += tlc.evaluate("WireEval", edit_cases[off:off + B], "c02_edit_%d" % off, timeout=3000)
+    for (got_b, rp), o in zip(edit_ctx, eouts):
+        if got_b != bytes(o["bytes"]):
+            ck.violation("encode_differs:after_edit", "a generically decoded message edited in place (first AVP moved to the end, hop-by-hop id + 1) encodes to %s..., reference %s..." % (
+                got_b.hex()[:80], bytes(o["bytes"]).hex()[:80]), rp)
+    ck.cov["edited_messages"] = len(edit_cases)
     # run-time registered command
     class VerifSpecial(DefinedMessage):
         code = 8123456
@@ -290,6 +319,27 @@ def run(tier, seed):
                     ck.violation("concurrent_%s_differs" % mode, "two threads %s messages at once: results %r, alone %r (thread exits %r), schedule %r" % (
                         "encoding" if mode == "encode" else "decoding", str(res)[:160], str(expected)[:160], exits, sched_[:40]), {"mode": mode, "schedule": sched_})
                     break
+    # two threads walking the (lazily decoded) grouped AVPs of two different messages
+    from diameter.message import constants as K
+
+    def gmsg(n, k):
+        kids = [Avp.new(K.AVP_RATING_GROUP, value=100 * n + i) for i in range(k)]
+        sub = Avp.new(K.AVP_SUBSCRIPTION_ID, value=[Avp.new(K.AVP_SUBSCRIPTION_ID_TYPE, value=n), Avp.new(K.AVP_SUBSCRIPTION_ID_DATA, value="user%d" % n)])
+        return Message(MessageHeader(1, 0, 0x80, 272, 4, n, n), [Avp.new(K.AVP_MULTIPLE_SERVICES_CREDIT_CONTROL, value=kids), sub]).as_bytes()
+
+    def walk_desc(b):
+        def w(avps):
+            return [(a.code, w(a.value) if isinstance(a, AvpGrouped) else a.payload.hex()) for a in avps]
+        return w(Message.from_bytes(b, plain_msg=True).avps)
+    b1, b2 = gmsg(1, 4), gmsg(2, 3)
+    studied_g = concur.studied_functions([Avp, AvpGrouped, Unpacker])
+    for sched_, res, exits, expected in concur.explore_calls(lambda: [[lambda: walk_desc(b1)], [lambda: walk_desc(b2), lambda: walk_desc(b1)]], studied_g,
+                                                             2 if tier == "thorough" else 1, max_runs=6000):
+        nconc += 1
+        if res != expected or exits:
+            ck.violation("concurrent_grouped_walk_differs", "two threads reading grouped AVP values of different messages at once: results %r, alone %r (thread exits %r), schedule %r" % (
+                str(res)[:200], str(expected)[:200], exits, sched_[:40]), {"mode": "walk", "schedule": sched_})
+            break
     ck.cov["concurrent_schedules"] = nconc
     ck.cov["evaluations"] = len(cases) + nfind
     ck.cov["distinct_nontrivial"] = len({json.dumps([c["hdr"], [a[1] for a in c["avps"]]], sort_keys=True) for c in cases})
